@@ -37,6 +37,10 @@ EXTRA_SEEDS = [
     'import m2\npub fn is_even(n) { case n { 0 -> True _ -> is_odd(n - 1) } }\npub fn is_odd(n) { case n { 0 -> False _ -> is_even(n - 1) } }\nfn top() { is_even(m2.c()) }\n',
     'pub fn ping(n) { case n { 0 -> 0 _ -> pong(n - 1) } }\nfn pong(n) { ping(n) + 1 }\n',
     'fn p1(x) { p2(x + 1) }\nfn p2(y) { p3(y) <> "s" }\nfn p3(z) { case z { 0 -> "" _ -> p1(z) } }\nfn solo() { p2(1) }\n',
+    # invisible characters where editors and tools put them: a byte order mark at the very start of the file (files saved as
+    # "UTF-8 with BOM"), a no-break space, a line separator
+    '\ufeffimport m2\npub fn main() { m2.c() }\nfn g(x) { main() + g(x) }\npub type T { T(f: Int) }\nfn h(t: T) { t.f }\n',
+    '\ufeff\ufeffpub fn main() {\u00a0g(1) }\u2028fn g(x) { x }\n',
     # hand-written multi-feature seeds (fields, labels, types, non-ASCII)
     'import m2.{type A, A}\npub type T { T(x: Int, y: String) U }\npub fn f(t: T) -> Int { case t { T(x: x, ..) -> x U -> 0 } }\nfn g(a: A) { a.a }\nconst s = "é💣"\n',
     '// ünïcode\npub fn h(l: List(Int)) { let [x, ..r] = l use y <- g(x) y + f(r) }\nfn g(x, k) { k(x) }\nfn f(r) { case r { [] -> 0 [a, ..] -> a } }\n',
